@@ -331,11 +331,18 @@ def check_yy(R, env, st, pieces):
     Y = need(env.get('Y'), 'the year')
     ident = I.parsed_from.get(v)
     if ident is None:
-        if not (D.aff_equiv(D.aff_of(v), D.aff_of(Y), st=st) or D.aff_equiv(D.aff_of(v), D.aff_scale(D.aff_of(Y), -1), st=st)):
-            raise Mismatch('the number is neither the year nor read from its last two digits')
-        # the whole year is printed: only when its decimal text has at most two characters
+        whole = D.aff_equiv(D.aff_of(v), D.aff_of(Y), st=st) or D.aff_equiv(D.aff_of(v), D.aff_scale(D.aff_of(Y), -1), st=st)
+        if not whole:
+            # the last two digits computed arithmetically: |year| mod 100
+            for (x, c, q, r) in D.TRIPLES.get(v, ()):
+                if r == v and c == 100 and (D.aff_equiv(D.aff_of(x), D.aff_of(Y), st=st) or D.aff_equiv(D.aff_of(x), D.aff_scale(D.aff_of(Y), -1), st=st)):
+                    return
+            raise Mismatch('the number is neither the year nor its last two digits')
+        # the whole year is printed: only when its decimal text has at most two characters (-9 ..= 99)
         lens = getattr(I, 'int_text_len', {}).get(Y, [])
-        if not lens or min(D.get_iv(st, lv)[1] for lv in lens) > 2:
+        ylo, yhi = D.get_iv(st, Y)
+        short_text = bool(lens) and min(D.get_iv(st, lv)[1] for lv in lens) <= 2
+        if not short_text and not (-9 <= ylo and yhi <= 99):
             raise Mismatch('the year is printed as it is on a path where its text can have more than two characters (yy shows the last two digits)')
         return
     so = I.slice_of.get(ident)
